@@ -156,6 +156,27 @@ def enumerate_draw(ctx, label, n, fn, value_of, case, expect_missing=None, max_b
         ctx.nontrivial_enum()
         _flat(ctx, label + "/after-rejection", n, counts2, skipped2, expect_missing,
               dict(case, chunk=chunk.hex()))
+    # after MANY consecutive rejections the next chunk still decides alone (no give-up / fallback path)
+    if rejected and size == 1 and label == "randrange":
+        chunk = rejected[-1]
+        for reps in (127, 128, 129, 300):
+            counts3 = {}
+            for t in range(256):
+                s = Script([chunk] * reps + [bytes([t])])
+                ctx.ev()
+                try:
+                    v = value_of(fn(s))
+                except Exception as e:
+                    ctx.fail("%s/exception-after-%d-rejections/%s" % (label, reps, exc_sig(e)), dict(case, chunk=chunk.hex()), repr(e))
+                    break
+                if not (1 <= v <= n - 1):
+                    ctx.fail("%s/out-of-range-after-many-rejections" % label, dict(case, chunk=chunk.hex(), reps=reps), repr(v))
+                    continue
+                if len(s.calls) == reps + 1:
+                    counts3[v] = counts3.get(v, 0) + 1
+            ctx.nontrivial_enum()
+            _flat(ctx, label + "/after-%d-rejections" % reps, n, counts3, 0, expect_missing,
+                  dict(case, chunk=chunk.hex(), reps=reps))
 
 
 class _Skip(Exception):
